@@ -147,12 +147,25 @@ impl HttpProtocol {
     }
 }
 
+impl HttpProtocol {
+    /// The protocol which carries requests of the given HTTP version,
+    /// or `None` when the version is not supported (e.g. HTTP/3).
+    pub fn for_version(version: ::http::Version) -> Option<Self> {
+        match version {
+            ::http::Version::HTTP_09 | ::http::Version::HTTP_10 | ::http::Version::HTTP_11 => {
+                Some(Self::Http1)
+            }
+            ::http::Version::HTTP_2 => Some(Self::Http2),
+            _ => None,
+        }
+    }
+}
+
 impl From<::http::Version> for HttpProtocol {
     fn from(version: ::http::Version) -> Self {
-        match version {
-            ::http::Version::HTTP_11 | ::http::Version::HTTP_10 => Self::Http1,
-            ::http::Version::HTTP_2 => Self::Http2,
-            _ => panic!("Unsupported HTTP protocol"),
+        match Self::for_version(version) {
+            Some(protocol) => protocol,
+            None => panic!("Unsupported HTTP protocol"),
         }
     }
 }
